@@ -7,6 +7,7 @@ import (
 	"fmt"
 	"strconv"
 	"strings"
+	"sync"
 	"testing"
 	"time"
 
@@ -303,7 +304,200 @@ func TestTCP(t *testing.T) {
 	kit.Check(t, kit.Spec[Case]{Sub: "tcp", Quick: 250, Thorough: 5000, Gen: genCase, Exec: execTCP})
 }
 
+// ---------------------------------------------------------------- replies on a connection that has subscribed
+
+type SubCase struct {
+	Channel kit.B     `json:"channel"`
+	Pushes  int       `json:"pushes"`
+	IdleMs  int       `json:"idle_ms"`
+	Cmds    []kit.Cmd `json:"cmds"`
+}
+
+// execSubscribed: a connection that has SUBSCRIBEd and received pushes is still a connection: every
+// command it sends afterwards - also after an idle period - gets exactly one reply, in order.
+func execSubscribed(c SubCase) kit.Outcome {
+	if err := ensureServer(); err != nil {
+		return kit.Outcome{Fail: "infrastructure: " + err.Error()}
+	}
+	o := kit.Outcome{NonTrivial: c.Pushes > 0 && c.IdleMs >= 1000, Labels: []string{"subscribed-connection"}}
+	sub, err := server.Dial()
+	if err != nil {
+		return kit.Outcome{Fail: "infrastructure: " + err.Error()}
+	}
+	defer sub.Close()
+	pub, err := server.Dial()
+	if err != nil {
+		return kit.Outcome{Fail: "infrastructure: " + err.Error()}
+	}
+	defer pub.Close()
+	nonceSeq++
+	ch := fmt.Sprintf("c03sub%d:%s", nonceSeq, c.Channel)
+	if _, err := sub.Do(3*time.Second, []byte("SUBSCRIBE"), []byte(ch)); err != nil {
+		o.Fail = "SUBSCRIBE got no reply: " + err.Error()
+		return o
+	}
+	for i := 0; i < c.Pushes; i++ {
+		if _, err := pub.Do(3*time.Second, []byte("PUBLISH"), []byte(ch), []byte(fmt.Sprintf("m%d", i))); err != nil {
+			o.Fail = "PUBLISH got no reply: " + err.Error()
+			return o
+		}
+	}
+	// the pushes arrive on the subscriber connection
+	for i := 0; i < c.Pushes; i++ {
+		v, err := sub.Read(3 * time.Second)
+		if err != nil || v.Kind != respx.Array || len(v.Arr) != 3 {
+			o.Fail = fmt.Sprintf("push %d of %d did not arrive intact on the subscribed connection: %v %s", i, c.Pushes, err, v.String())
+			return o
+		}
+	}
+	time.Sleep(time.Duration(c.IdleMs) * time.Millisecond)
+	nonce := fmt.Sprintf("subnonce-%d", nonceSeq)
+	var stream []byte
+	for _, cmd := range c.Cmds {
+		stream = append(stream, respx.EncodeCommand(cmd.Bytes())...)
+	}
+	stream = append(stream, respx.EncodeCommand([][]byte{[]byte("PING"), []byte(nonce)})...)
+	if err := sub.Write(stream, 5*time.Second); err != nil {
+		o.Fail = "write on the subscribed connection failed: " + err.Error()
+		return o
+	}
+	got := 0
+	for {
+		v, err := sub.Read(4 * time.Second)
+		if err != nil {
+			if server.WaitExit(300 * time.Millisecond) {
+				o.Fail = fmt.Sprintf("server died: %.300s", server.CrashReport())
+				stopServer()
+				return o
+			}
+			o.Fail = fmt.Sprintf("a connection that subscribed, received %d push(es) and then idled %d ms got only %d replies for %d commands (+sentinel): %v", c.Pushes, c.IdleMs, got, len(c.Cmds), err)
+			return o
+		}
+		if v.Kind == respx.Bulk && string(v.Str) == nonce {
+			if got != len(c.Cmds) {
+				o.Fail = fmt.Sprintf("the sentinel's echo arrived after %d replies for %d commands", got, len(c.Cmds))
+			}
+			return o
+		}
+		got++
+		if got > len(c.Cmds) {
+			o.Fail = "more replies than commands before the sentinel's echo"
+			return o
+		}
+	}
+}
+
+func TestSubscribedConn(t *testing.T) {
+	defer stopServer()
+	kit.Check(t, kit.Spec[SubCase]{Sub: "subscribed", Quick: 3, Thorough: 40, NoShrink: true,
+		Gen: func(t *rapid.T) SubCase {
+			c := SubCase{Channel: kit.B(gen.Value(t, "ch")), Pushes: rapid.IntRange(0, 3).Draw(t, "pushes"), IdleMs: rapid.SampledFrom([]int{0, 300, 1200, 2300}).Draw(t, "idle")}
+			n := rapid.IntRange(1, 5).Draw(t, "ncmds")
+			for i := 0; i < n; i++ {
+				c.Cmds = append(c.Cmds, rapid.SampledFrom([]kit.Cmd{kit.MkCmd("PING"), kit.MkCmd("SET", "subk", "v"), kit.MkCmd("GET", "subk"),
+					kit.MkCmd("LRANGE", "nolist", "0", "-1"), kit.MkCmd("NOSUCH"), kit.MkCmd("INCR", "subctr")}).Draw(t, "cmd"))
+			}
+			return c
+		},
+		Exec: execSubscribed})
+}
+
+// ---------------------------------------------------------------- several connections receiving replies at once
+
+type ConcCase struct {
+	Conns   int `json:"conns"`
+	Rounds  int `json:"rounds"`
+	Elems   int `json:"elems"`
+	ElemLen int `json:"elem_len"`
+}
+
+// execConcurrent: every connection builds its own list/set/hash of tagged payloads and then reads them
+// back in a pipeline while the other connections do the same: each reply must be well-formed and carry
+// exactly that connection's own payloads (a reply assembled in shared memory shows up as foreign bytes).
+func execConcurrent(c ConcCase) kit.Outcome {
+	if err := ensureServer(); err != nil {
+		return kit.Outcome{Fail: "infrastructure: " + err.Error()}
+	}
+	o := kit.Outcome{NonTrivial: c.Conns >= 2, Labels: []string{"concurrent-connections"}}
+	nonceSeq++
+	base := nonceSeq
+	errs := make(chan string, c.Conns)
+	var wg sync.WaitGroup
+	for ci := 0; ci < c.Conns; ci++ {
+		wg.Add(1)
+		go func(ci int) {
+			defer wg.Done()
+			conn, err := server.Dial()
+			if err != nil {
+				errs <- "infrastructure: " + err.Error()
+				return
+			}
+			defer conn.Close()
+			tag := fmt.Sprintf("c%d-%d", base, ci)
+			key := "conc:" + tag
+			args := [][]byte{[]byte("RPUSH"), []byte(key)}
+			var want []string
+			for e := 0; e < c.Elems; e++ {
+				el := strings.Repeat(fmt.Sprintf("%s.%d|", tag, e), 1+c.ElemLen/(len(tag)+4))
+				want = append(want, el)
+				args = append(args, []byte(el))
+			}
+			if _, err := conn.Do(5*time.Second, args...); err != nil {
+				errs <- "RPUSH: " + err.Error()
+				return
+			}
+			var stream []byte
+			for r := 0; r < c.Rounds; r++ {
+				stream = append(stream, respx.EncodeCommand([][]byte{[]byte("LRANGE"), []byte(key), []byte("0"), []byte("-1")})...)
+			}
+			go func() { _ = conn.Write(stream, 20*time.Second) }()
+			for r := 0; r < c.Rounds; r++ {
+				v, err := conn.Read(10 * time.Second)
+				if err != nil {
+					errs <- fmt.Sprintf("connection %d, reply %d of %d: %v; undecoded bytes %.100q", ci, r, c.Rounds, err, conn.R.Buffered())
+					return
+				}
+				if v.Kind != respx.Array || len(v.Arr) != len(want) {
+					errs <- fmt.Sprintf("connection %d, reply %d: expected its %d elements, got %.120s", ci, r, len(want), v.String())
+					return
+				}
+				for i := range want {
+					if string(v.Arr[i].Str) != want[i] {
+						errs <- fmt.Sprintf("connection %d, reply %d, element %d: got %.80q, stored %.80q", ci, r, i, v.Arr[i].Str, want[i])
+						return
+					}
+				}
+			}
+			_, _ = conn.Do(5*time.Second, []byte("DEL"), []byte(key))
+		}(ci)
+	}
+	wg.Wait()
+	close(errs)
+	for e := range errs {
+		if strings.HasPrefix(e, "infrastructure") {
+			return kit.Outcome{Fail: e}
+		}
+		if server.WaitExit(300 * time.Millisecond) {
+			e += fmt.Sprintf(" | server died: %.300s", server.CrashReport())
+			stopServer()
+		}
+		o.Fail = e
+		return o
+	}
+	return o
+}
+
+func TestConcurrentConns(t *testing.T) {
+	defer stopServer()
+	kit.Check(t, kit.Spec[ConcCase]{Sub: "concurrent", Quick: 10, Thorough: 200,
+		Gen: func(t *rapid.T) ConcCase {
+			return ConcCase{Conns: rapid.IntRange(2, 8).Draw(t, "conns"), Rounds: rapid.SampledFrom([]int{20, 100, 400}).Draw(t, "rounds"),
+				Elems: rapid.SampledFrom([]int{2, 50, 400, 800}).Draw(t, "elems"), ElemLen: rapid.SampledFrom([]int{8, 40, 1500}).Draw(t, "elemlen")}
+		},
+		Exec: execConcurrent})
+}
+
 func TestReplay(t *testing.T) {
 	defer stopServer()
-	kit.Replay[Case](t, map[string]func(kit.RawCase) kit.Outcome{"inproc": kit.ReplaySub(execInproc), "tcp": kit.ReplaySub(execTCP)})
+	kit.Replay[Case](t, map[string]func(kit.RawCase) kit.Outcome{"inproc": kit.ReplaySub(execInproc), "tcp": kit.ReplaySub(execTCP), "subscribed": kit.ReplaySub(execSubscribed), "concurrent": kit.ReplaySub(execConcurrent)})
 }
